@@ -181,7 +181,8 @@ impl<T: RealNumber, D: Distance<Vec<T>, T>> G<T, D> {
     }
     pub proof fn lemma_exp_basic(self, y: Seq<i16>, st: Seq<int>, i: int, k: int, p: int, pl: Seq<int>, pf: int)
         requires self.inv_exp(y, st, i, k, p, pl, pf),
-        ensures y.len() == self.n(), 0 <= k <= i < self.n(), self.n() <= i16::MAX
+        ensures y.len() == self.n(), 0 <= k <= i < self.n(), self.n() <= i16::MAX,
+            forall|q: int| 0 <= q < self.n() ==> #[trigger] y[q] >= -3
     {
         reveal(G::inv_outer); reveal(G::inv_exp);
     }
